@@ -117,6 +117,9 @@
 // only enables the `doc_cfg` feature when
 // the `docsrs` configuration attribute is defined
 #![cfg_attr(docsrs, feature(doc_cfg))]
+// verification hook (cfg(kani) is set by `cargo kani` only): unstable features used by the harness stubs
+#![cfg_attr(kani, feature(allocator_api, formatting_options))]
+#![cfg_attr(kani, recursion_limit = "1024")]
 
 pub mod error;
 pub use error::{pretty_parse, pretty_wrap, Error, Result};
